@@ -58,6 +58,9 @@ func window(a []wire.Match, am gen.Amount) []wire.Match {
 }
 
 func matchesJSON(ms []wire.Match) string {
+	if len(ms) == 0 {
+		return "[]"
+	}
 	b, _ := json.Marshal(ms)
 	return string(b)
 }
